@@ -34,6 +34,24 @@ class Pipe:
         self.error: BaseException | None = None
         self._waiters: list[asyncio.Future] = []
         self.total_fed = 0
+        self.capacity: int | None = None  # bounded pipe: writers wait while len(buf) >= capacity
+        self._drain_waiters: list[asyncio.Future] = []
+
+    def wake_drained(self) -> None:
+        ws, self._drain_waiters = self._drain_waiters, []
+        for w in ws:
+            if not w.done():
+                w.set_result(None)
+
+    async def wait_writable(self) -> None:
+        while self.capacity is not None and len(self.buf) >= self.capacity and not self.eof:
+            fut = asyncio.get_running_loop().create_future()
+            self._drain_waiters.append(fut)
+            try:
+                await fut
+            finally:
+                if fut in self._drain_waiters:
+                    self._drain_waiters.remove(fut)
 
     def _wake(self) -> None:
         ws, self._waiters = self._waiters, []
@@ -84,11 +102,6 @@ async def feeder(pipe: Pipe, script: list[tuple[float, Any]]) -> None:
 
 
 class MemStreamTransport(AsyncStreamTransport):
-    __slots__ = (
-        "_backend", "incoming", "outgoing", "wire", "calls", "closed", "closing", "aclose_entered", "aclose_finished", "eof_returned",
-        "read_after_eof", "hostile_tail", "recv_cap", "send_frag", "send_yield", "send_sleep", "aclose_script", "send_faults",
-        "recv_faults", "n_send", "n_recv", "eof_sent", "in_send", "max_in_send", "events", "name", "send_block", "aclose_calls",
-    )
 
     def __init__(self, backend: AsyncBackend, incoming: Pipe | None = None, outgoing: Pipe | None = None, name: str = "mem") -> None:
         self._backend = backend
@@ -119,6 +132,8 @@ class MemStreamTransport(AsyncStreamTransport):
         self.max_in_send = 0
         self.events: list[tuple] = []
         self.name = name
+        self.in_recv = 0
+        self.both_in_flight = 0  # times a send was suspended in here while a receive was pending too
 
     # ------------------------------------------------------------------ read side
     async def recv_into(self, buffer) -> int:
@@ -142,7 +157,13 @@ class MemStreamTransport(AsyncStreamTransport):
                     mv[:n] = self.hostile_tail[:n]
                 return n
             return 0
-        await self.incoming.wait_readable()
+        self.in_recv += 1
+        try:
+            if self.in_send:
+                self.both_in_flight += 1
+            await self.incoming.wait_readable()
+        finally:
+            self.in_recv -= 1
         # ---- from here on no suspension: bytes leave the pipe in the step in which we return
         if self.incoming.buf:
             n = min(want, len(self.incoming.buf))
@@ -151,6 +172,7 @@ class MemStreamTransport(AsyncStreamTransport):
             with memoryview(buffer) as mv:
                 mv[:n] = self.incoming.buf[:n]
             del self.incoming.buf[:n]
+            self.incoming.wake_drained()
             self.events.append(("recv", n))
             return n
         if self.incoming.error is not None:
@@ -172,6 +194,8 @@ class MemStreamTransport(AsyncStreamTransport):
             raise fault
         self.in_send += 1
         self.max_in_send = max(self.max_in_send, self.in_send)
+        if self.in_recv:
+            self.both_in_flight += 1
         try:
             frag = self.send_frag or max(1, len(data))
             pos = 0
@@ -179,6 +203,8 @@ class MemStreamTransport(AsyncStreamTransport):
             while pos < len(data) or first:
                 if self.send_block is not None:
                     await self.send_block.wait()
+                if self.outgoing is not None and isinstance(self.outgoing, Pipe) and self.outgoing.capacity is not None:
+                    await self.outgoing.wait_writable()
                 part = data[pos : pos + frag]
                 pos += len(part)
                 first = False
@@ -223,6 +249,7 @@ class MemStreamTransport(AsyncStreamTransport):
             if self.outgoing is not None and not self.outgoing.eof:
                 self.outgoing.feed_eof()
             self.incoming._wake()
+            self.incoming.wake_drained()
         self.aclose_finished += 1
 
     def is_closing(self) -> bool:
@@ -247,7 +274,6 @@ def stream_pair(backend: AsyncBackend) -> tuple[MemStreamTransport, MemStreamTra
 
 
 class MemDatagramTransport(AsyncDatagramTransport):
-    __slots__ = ("_backend", "inbox", "sent", "closed", "closing", "_waiters", "send_yield", "aclose_entered")
 
     def __init__(self, backend: AsyncBackend) -> None:
         self._backend = backend
